@@ -45,6 +45,22 @@ def r3_phantom(toks, stats):
         return out
     return rtok.walk(toks, f)
 
+def r11_strum_path(toks, stats):
+    """R11: a leading `:: strum ::` path (the extern crate) is re-pointed at the prelude's mirror module `crate::strum`."""
+    def f(lst):
+        out = []
+        i = 0
+        while i < len(lst):
+            t = lst[i]
+            if (t.is_p('::') and i + 2 < len(lst) and lst[i + 1].is_i('strum') and lst[i + 2].is_p('::')
+                    and not (i > 0 and (lst[i - 1].is_i() or lst[i - 1].is_p('>')))):
+                out.append(Tok('ident', 'crate'))
+                stats['R11'] += 1
+            out.append(t)
+            i += 1
+        return out
+    return rtok.walk(toks, f)
+
 def r5_panic(toks, stats):
     """R5: panic!(..) -> vx_panic(..)."""
     def f(lst):
@@ -116,7 +132,13 @@ def subst_seq(toks, pattern, repl, stats=None, key=None):
             if hit:
                 for k in range(m):
                     it = lst[i + k]
-                    if isinstance(it, Group) or it.text != pattern[k]:
+                    pk = pattern[k]
+                    if isinstance(pk, (list, tuple)):
+                        # a parenthesised group whose flat token texts are pk
+                        if not (isinstance(it, Group) and it.delim == '(' and flat_texts(it.items) == list(pk)):
+                            hit = False
+                            break
+                    elif isinstance(it, Group) or it.text != pk:
                         hit = False
                         break
             if hit:
@@ -175,6 +197,23 @@ class Assembled:
         self.dropped = []       # generated functions not placed under contract
         self.seen_keys = set()
 
+def trait_key(trait_toks):
+    """Last path segment of the trait; for `From<X>` / `From<&X>` the (last identifier of the) argument type is kept, so that
+    `From<E>` and `From<&E>` impls for the same Self type - or for two enums of one group - have different keys."""
+    if trait_toks is None:
+        return None
+    name = rtok.path_last_ident(trait_toks)
+    if name != 'From':
+        return name
+    idx = None
+    for i, t in enumerate(trait_toks):
+        if t.is_i(name):
+            idx = i
+    args = trait_toks[idx + 2:-1] if idx is not None and idx + 1 < len(trait_toks) and trait_toks[idx + 1].is_p('<') else []
+    amp = '&' if args and args[0].is_p('&') else ''
+    inner = rtok.path_last_ident([t for t in args if t.kind != 'lifetime' and not t.is_p('&')]) or ''
+    return 'From<%s%s>' % (amp, inner)
+
 def fn_key(self_ident, trait_ident, name):
     return (self_ident, trait_ident, name)
 
@@ -187,6 +226,8 @@ def assemble_program(prog, items, plan, const_plan=None, type_names=None, drop_i
     st = res.stats
     out = []
     const_plan = const_plan or {}
+    for it in items:
+        it.toks = r11_strum_path(it.toks, st)
     # associated types of every generated trait impl: {self_ident: {(trait_ident, name): tokens}}
     assoc_all = {}
     for it in items:
@@ -196,7 +237,7 @@ def assemble_program(prog, items, plan, const_plan=None, type_names=None, drop_i
         if h0.trait is None:
             continue
         si = rtok.path_last_ident(h0.self_ty) or rtok.render(h0.self_ty)
-        ti = rtok.path_last_ident(h0.trait)
+        ti = trait_key(h0.trait)
         for m in rtok.split_items(h0.body.items):
             if m.kind == 'type':
                 eq = [i for i, t in enumerate(m.toks) if t.is_p('=')][0]
@@ -212,7 +253,7 @@ def assemble_program(prog, items, plan, const_plan=None, type_names=None, drop_i
             raise LostAnchor('unexpected generated item kind %s: %s' % (it.kind, rtok.render(it.toks[:8])))
         h = rtok.parse_impl(it)
         self_ident = rtok.path_last_ident(h.self_ty) or rtok.render(h.self_ty)
-        trait_ident = rtok.path_last_ident(h.trait) if h.trait is not None else None
+        trait_ident = trait_key(h.trait)
         if trait_ident in drop_impl_traits:
             st['R7'] += 1
             continue
@@ -235,8 +276,10 @@ def assemble_program(prog, items, plan, const_plan=None, type_names=None, drop_i
                     res.dropped.append('%s::%s (const)' % (self_ident, m.name))
                     continue
                 ctext, lemma, vname = _emit_const(m, const_plan[key], assoc, h, st)
-                emitted.append(ctext)
-                after.append(lemma)
+                if ctext:
+                    emitted.append(ctext)
+                if lemma:
+                    after.append(lemma)
                 res.functions.append((vname, key, const_plan[key]))
                 continue
             if m.kind != 'fn':
@@ -253,6 +296,8 @@ def assemble_program(prog, items, plan, const_plan=None, type_names=None, drop_i
             else:
                 emitted.append(text)
             res.functions.append((vname, key, c))
+        if not emitted:
+            out.extend(after)
         if emitted:
             gen = ('< ' + rtok.render(h.generics) + ' >') if h.generics else ''
             where = (' where ' + rtok.render(h.where)) if h.where else ''
@@ -327,7 +372,7 @@ def _emit_fn(m, c, assoc, h, trait_ident, self_ident, st):
         before = st['R1.call_repointed']
         body = subst_seq(body, pat, T(repl), st, 'R1.call_repointed')
         if st['R1.call_repointed'] == before:
-            raise LostAnchor('call to re-point not found in %s::%s: %s' % (self_ident, s.name, ' '.join(pat)))
+            raise LostAnchor('call to re-point not found in %s::%s: %s' % (self_ident, s.name, ' '.join(str(x) for x in pat)))
     generics = list(s.generics)
     where = list(s.where)
     if c.free:
@@ -347,7 +392,7 @@ def _emit_fn(m, c, assoc, h, trait_ident, self_ident, st):
         body = subst_seq(body, ['Self'], selfty)
         if ret is not None:
             ret = subst_seq(ret, ['Self'], selfty)
-    ident = '%s::%s' % (self_ident, name)
+    ident = name if c.free else '%s::%s' % (self_ident, name)
     lines = ['// @@FN %s' % ident]
     if c.note:
         lines.append('// ' + c.note)
@@ -395,13 +440,18 @@ def _emit_const(m, c, assoc, h, st):
     ident = '%s::%s' % (self_ident, name)
     is_slice = any(isinstance(t, Group) and t.delim == '[' for t in ty)
     if is_slice:
+        # R4: associated slice const -> module-level `exec const <Self>_<Trait>_<NAME> .. ensures .. { init }`
         st['R4'] += 1
-        lines = ['// @@FN %s' % ident,
-                 '%s exec const %s : %s' % (rtok.render(pre), name, rtok.render(ty))]
-        lines.extend(_clauses('ensures', c.ensures, ident))
-        lines.append('{ ' + rtok.render(expr) + ' }')
-        lines.append('// @@END %s' % ident)
-        return '\n'.join(lines), '', ident
+        tr = trait_key(h.trait) or 'impl'
+        hoisted = '%s_%s_%s' % (self_ident, tr, name)
+        ty2 = subst_seq(ty, ['Self'], h.self_ty)
+        expr2 = subst_seq(expr, ['Self'], h.self_ty)
+        lines = ['// @@FN %s' % hoisted,
+                 'pub exec const %s : %s' % (hoisted, rtok.render(ty2))]
+        lines.extend(_clauses('ensures', c.ensures, hoisted))
+        lines.append('{ ' + rtok.render(expr2) + ' }')
+        lines.append('// @@END %s' % hoisted)
+        return '', '\n'.join(lines), hoisted
     ctext = rtok.render(toks)
     vname = 'vx_const_%s_%s' % (self_ident, name)
     gen = ('< ' + rtok.render(h.generics) + ' >') if h.generics else ''
